@@ -6,32 +6,29 @@ From FF Require Import Lib.Word Gen.Consts_device_acpi_aml Gen.Consts_aml_tree A
   Aml.Tree Aml.TreeSpec Aml.TreeProofs Aml.TreeProofsOps Aml.TreeProofsFind Aml.Parser Aml.Grammar Aml.LexRoundtrip
   Aml.ParserTotalTree Aml.ParserTotalBase
   Aml.ParserFragBase Aml.ParserFragFirst Aml.ParserFragF0 Aml.ParserFragF0Shape Aml.ParserFragConn Aml.ParserFragF0Conn Aml.ParserFragWalk
-  Aml.ParserFragF0Top Aml.ParserFragRose Aml.ParserFragDev Aml.ParserFragF1 Aml.ParserFragF1First Aml.ParserFragF1Conn.
+  Aml.ParserFragF0Top Aml.ParserFragRose Aml.ParserFragDev Aml.ParserFragArgs Aml.ParserFragF1 Aml.ParserFragF1First Aml.ParserFragF1Conn.
 Import ListNotations.
 Local Open Scope N_scope.
 
 Ltac Zify.zify_post_hook ::= Z.div_mod_to_equations.
 
 (** ---- sizes against the length of the encoding ---- *)
+Lemma len_enc_fx l : (length l <= length (enc_fx l))%nat.
+Proof. induction l as [|[w v] r IH]; [cbn; lia|]. cbn [enc_fx length]. rewrite app_length. pose proof (lenN_fw_enc w v) as E. unfold lenN, fw_len in E. destruct w; cbn [fw_n] in E; lia. Qed.
+
 Lemma enc_item_len it : (cfuel_item it <= length (enc_item it))%nat /\ (isz it <= length (enc_item it))%nat /\ (icnt it <= length (enc_item it))%nat.
 Proof.
-  revert it. fix IH 1. intros [d|k seg body|k seg fl body].
+  revert it. fix IH 1. intros [d|bk k seg fa body].
   - cbn [cfuel_item isz icnt enc_item]. unfold enc_decl, enc_const. cbn [length]. rewrite !app_length. cbn [seg_bytes length].
     destruct (enc_op_nonempty (d_op d)) as (x & l & E). rewrite E. cbn [length]. lia.
-  - rewrite cfuel_dev, isz_dev, icnt_dev, enc_dev. rewrite !app_length. cbn [seg_bytes length]. change (length (enc_op OP_DEVICE)) with 2%nat.
+  - rewrite cfuel_blk, isz_blk, icnt_blk, enc_blk. rewrite !app_length. cbn [seg_bytes length].
+    destruct (enc_op_nonempty (bk_op bk)) as (x0 & l0 & E). rewrite E. cbn [length].
     assert (H : (cfuel body <= length (enc_items body))%nat /\ (iszs body <= length (enc_items body))%nat /\ (icnts body <= length (enc_items body))%nat).
     { induction body as [|x t IHt]; [cbn; lia|]. destruct (IH x) as (A & B & C). destruct IHt as (A' & B' & C').
       rewrite cfuel_cons, iszs_cons, icnts_cons, enc_items_cons, app_length. lia. }
-    assert (Hk : (1 <= length (enc_pkglen k (k + lenN (seg_bytes seg ++ enc_items body))))%nat).
+    assert (Hk : (1 <= length (enc_pkglen k (k + lenN (seg_bytes seg ++ enc_fx (bfx bk fa) ++ enc_items body))))%nat).
     { unfold enc_pkglen. destruct (k =? 1); cbn [length]; lia. }
-    lia.
-  - rewrite cfuel_meth, isz_meth, icnt_meth, enc_meth. rewrite !app_length. cbn [seg_bytes length]. change (length (enc_op OP_METHOD)) with 1%nat.
-    assert (H : (cfuel body <= length (enc_items body))%nat /\ (iszs body <= length (enc_items body))%nat /\ (icnts body <= length (enc_items body))%nat).
-    { induction body as [|x t IHt]; [cbn; lia|]. destruct (IH x) as (A & B & C). destruct IHt as (A' & B' & C').
-      rewrite cfuel_cons, iszs_cons, icnts_cons, enc_items_cons, app_length. lia. }
-    assert (Hk : (1 <= length (enc_pkglen k (k + lenN (seg_bytes seg ++ [fl] ++ enc_items body))))%nat).
-    { unfold enc_pkglen. destruct (k =? 1); cbn [length]; lia. }
-    lia.
+    pose proof (len_enc_fx (bfx bk fa)). lia.
 Qed.
 
 Lemma enc_items_len l : (cfuel l <= length (enc_items l))%nat /\ (iszs l <= length (enc_items l))%nat /\ (icnts l <= length (enc_items l))%nat.
@@ -53,68 +50,68 @@ Qed.
 Lemma seg_bytes_lt seg : Forall (fun b => b < 256) (seg_bytes seg).
 Proof. unfold seg_bytes. repeat (constructor; [apply land255_lt|]). constructor. Qed.
 
+Lemma enc_fx_bytes : forall l, fx_okb l = true -> Forall (fun b => b < 256) (enc_fx l).
+Proof.
+  induction l as [|[w v] r IH]; intros Hok; [constructor|]. cbn [fx_okb forallb] in Hok. apply andb_prop in Hok. destruct Hok as [Hv Hok].
+  apply N.ltb_lt in Hv. cbn [enc_fx]. apply Forall_app. split; [|apply IH; exact Hok].
+  destruct w; cbn [fw_enc]; [constructor; [exact Hv|constructor]|apply gle_bytes_lt|apply gle_bytes_lt].
+Qed.
+
 Lemma enc_items_bytes : forall l, forallb item_okb l = true -> Forall (fun b => b < 256) (enc_items l).
 Proof.
-  induction l as [|d rest IH|k seg body rest IHb IH|k seg fl body rest IHb IH] using items_ind; intros Hok; [constructor| | |].
+  induction l as [|d rest IH|bk k seg fa body rest IHb IH] using items_ind; intros Hok; [constructor| |].
   - apply forallb_item_cons in Hok. destruct Hok as [Hd Hok]. cbn [item_okb] in Hd. apply andb_prop in Hd. destruct Hd as [Hd _].
     rewrite enc_items_cons. apply Forall_app. split; [apply enc_decl_bytes; exact Hd|apply IH; exact Hok].
   - apply forallb_item_cons in Hok. destruct Hok as [Hd Hok]. cbn [item_okb] in Hd.
-    apply andb_prop in Hd. destruct Hd as [Hx Hbody]. apply andb_prop in Hx. destruct Hx as [_ Hpk]. apply pkglen_okb_adm in Hpk.
-    rewrite enc_items_cons, enc_dev. apply Forall_app. split; [|apply IH; exact Hok].
-    apply Forall_app. split; [repeat constructor|]. apply Forall_app. split; [apply enc_pkglen_bytes; exact Hpk|].
-    apply Forall_app. split; [apply seg_bytes_lt|apply IHb; exact Hbody].
-  - apply forallb_item_cons in Hok. destruct Hok as [Hd Hok]. cbn [item_okb] in Hd.
     apply andb_prop in Hd. destruct Hd as [Hx Hbody]. apply andb_prop in Hx. destruct Hx as [Hx Hpk]. apply pkglen_okb_adm in Hpk.
-    apply andb_prop in Hx. destruct Hx as [_ Hfl]. apply N.ltb_lt in Hfl.
-    rewrite enc_items_cons, enc_meth. apply Forall_app. split; [|apply IH; exact Hok].
-    apply Forall_app. split; [repeat constructor|]. apply Forall_app. split; [apply enc_pkglen_bytes; exact Hpk|].
-    apply Forall_app. split; [apply seg_bytes_lt|]. apply Forall_app. split; [constructor; [exact Hfl|constructor]|apply IHb; exact Hbody].
+    apply andb_prop in Hx. destruct Hx as [_ Hfx].
+    rewrite enc_items_cons, enc_blk. apply Forall_app. split; [|apply IH; exact Hok].
+    apply Forall_app. split; [destruct bk; repeat constructor|]. apply Forall_app. split; [apply enc_pkglen_bytes; exact Hpk|].
+    apply Forall_app. split; [apply seg_bytes_lt|]. apply Forall_app. split; [apply enc_fx_bytes; exact Hfx|apply IHb; exact Hbody].
 Qed.
 
 (** ---- all slots of the range are nodes of [lay2] ---- *)
 Lemma lay2_nodes_all h tbl : forall l b off y, b <= y < b + N.of_nat (iszs l) -> In y (rnodesl (lay2 h tbl b off l)).
 Proof.
-  induction l as [|d rest IH|k seg body rest IHb IH|k seg fl body rest IHb IH] using items_ind; intros b off y Hy; [cbn in Hy; lia| | |].
+  induction l as [|d rest IH|bk k seg fa body rest IHb IH] using items_ind; intros b off y Hy; [cbn in Hy; lia| |].
   - rewrite lay2_cons, rnodesl_app. rewrite iszs_cons in Hy. cbn [isz] in Hy. apply in_or_app.
     destruct (N.ltb_spec y (b + 3)) as [Hlt|Hge].
     + left. cbn [lay2_item rnodesl flat_map rnodes app In]. lia.
     + right. apply IH. cbn [isz]. lia.
-  - rewrite lay2_cons, rnodesl_app. rewrite iszs_cons, isz_dev in Hy. apply in_or_app.
-    destruct (N.ltb_spec y (b + N.of_nat (3 + iszs body))) as [Hlt|Hge].
-    + left. rewrite lay2_dev. unfold rnodesl. cbn [flat_map]. rewrite app_nil_r, rnodes_eq.
+  - rewrite lay2_cons, rnodesl_app. rewrite iszs_cons, isz_blk in Hy. apply in_or_app.
+    set (nf := length (bfx bk fa)) in *.
+    destruct (N.ltb_spec y (b + N.of_nat (3 + nf + iszs body))) as [Hlt|Hge].
+    + left. rewrite lay2_blk. unfold rnodesl. cbn [flat_map]. rewrite app_nil_r, rnodes_eq.
       destruct (N.eq_dec y b) as [->|Hne]; [left; reflexivity|right].
-      unfold rnodesl. cbn [flat_map]. rewrite !rnodes_eq. cbn [rnodesl flat_map app].
-      destruct (N.eq_dec y (b + 1)) as [->|Hne1]; [left; reflexivity|right].
-      destruct (N.eq_dec y (b + 2)) as [->|Hne2]; [left; reflexivity|right].
-      rewrite app_nil_r. apply IHb. lia.
-    + right. apply IH. rewrite isz_dev. lia.
-  - rewrite lay2_cons, rnodesl_app. rewrite iszs_cons, isz_meth in Hy. apply in_or_app.
-    destruct (N.ltb_spec y (b + N.of_nat (4 + iszs body))) as [Hlt|Hge].
-    + left. rewrite lay2_meth. unfold rnodesl. cbn [flat_map]. rewrite app_nil_r, rnodes_eq.
-      destruct (N.eq_dec y b) as [->|Hne]; [left; reflexivity|right].
-      unfold rnodesl. cbn [flat_map]. rewrite !rnodes_eq. cbn [rnodesl flat_map app].
-      destruct (N.eq_dec y (b + 1)) as [->|Hne1]; [left; reflexivity|right].
-      destruct (N.eq_dec y (b + 2)) as [->|Hne2]; [left; reflexivity|right].
-      destruct (N.eq_dec y (b + 3)) as [->|Hne3]; [left; reflexivity|right].
-      rewrite app_nil_r. apply IHb. lia.
-    + right. apply IH. rewrite isz_meth. lia.
+      rewrite rnodesl_app. apply in_or_app. unfold nfx. fold nf.
+      destruct (N.ltb_spec y (b + 2 + N.of_nat nf)) as [Hl2|Hg2].
+      * left. apply leaf_row_nodes. rewrite len_hd_pays. fold nf. lia.
+      * right. unfold rnodesl. cbn [flat_map]. rewrite app_nil_r, rnodes_eq.
+        destruct (N.eq_dec y (b + 2 + N.of_nat nf)) as [->|Hne2]; [left; reflexivity|right]. apply IHb. lia.
+    + right. apply IH. rewrite isz_blk. fold nf. lia.
 Qed.
 
 (** ---- the kinds of nodes of the final tree ---- *)
 Definition f1_ok (r : rose) : Prop :=
   match r with RN i a ks =>
     (exists nm, a = mkPay opScopeBlock 113 0 nm 0 0 None) \/
-    (exists off nm p po s so l, a = dev_pay 1 off nm /\ ks = [RN p (pth_pay 1 0 po) []; RN s (sb_pay 1 so) l]) \/
-    (exists off nm p po q qo fl s so l, a = mth_pay 1 off nm /\ ks = [RN p (pth_pay 1 0 po) []; RN q (byt_pay 1 qo fl) []; RN s (sb_pay 1 so) l]) \/
+    (exists bk off nm p po rest, a = blk_pay 1 bk off nm /\ ks = RN p (pth_pay 1 0 po) [] :: rest) \/
+    (exists off w v, a = num_pay 1 w off v /\ ks = []) \/
     (exists off, a = sb_pay 1 off) \/
     (exists off, a = pth_pay 1 0 off /\ ks = []) \/
     (exists off nm p po c co d, a = nam_pay 1 off nm /\ ks = [RN p (pth_pay 1 0 po) []; RN c (cst_pay 1 co d) []] /\ is_constb (d_op d) = true) \/
     (exists off d, a = cst_pay 1 off d /\ is_constb (d_op d) = true /\ ks = [])
   end.
 
+Lemma fx_row_ok : forall l b off, Forall (rallr f1_ok) (leaf_row b (fx_pays 1 off l)).
+Proof.
+  induction l as [|[w v] r IH]; intros b off; [constructor|]. cbn [fx_pays leaf_row]. constructor; [|apply IH].
+  constructor; [|constructor]. cbn [f1_ok]. right; right; left. do 3 eexists. split; reflexivity.
+Qed.
+
 Lemma lay2_ok : forall l b off, forallb item_okb l = true -> Forall (rallr f1_ok) (lay2 1 0 b off l).
 Proof.
-  induction l as [|d rest IH|k seg body rest IHb IH|k seg fl body rest IHb IH] using items_ind; intros b off Hok; [constructor| | |].
+  induction l as [|d rest IH|bk k seg fa body rest IHb IH] using items_ind; intros b off Hok; [constructor| |].
   - apply forallb_item_cons in Hok. destruct Hok as [Hd Hok]. cbn [item_okb] in Hd. apply andb_prop in Hd. destruct Hd as [Hd _].
     unfold decl_okb in Hd. apply andb_prop in Hd. destruct Hd as [Hd _]. apply andb_prop in Hd. destruct Hd as [_ Hc].
     rewrite lay2_cons. apply Forall_app. split; [|apply IH; exact Hok]. cbn [lay2_item]. constructor; [|constructor].
@@ -124,19 +121,11 @@ Proof.
       * constructor; [|constructor]. cbn [f1_ok]. right; right; right; right; left. eexists. split; reflexivity.
       * constructor; [|constructor]. cbn [f1_ok]. right; right; right; right; right; right. do 2 eexists. split; [reflexivity|split; [exact Hc|reflexivity]].
   - apply forallb_item_cons in Hok. destruct Hok as [Hd Hok]. cbn [item_okb] in Hd. apply andb_prop in Hd. destruct Hd as [_ Hbody].
-    rewrite lay2_cons. apply Forall_app. split; [|apply IH; exact Hok]. rewrite lay2_dev. constructor; [|constructor].
-    constructor.
-    + cbn [f1_ok]. right; left. do 7 eexists. split; reflexivity.
-    + constructor; [|constructor; [|constructor]].
+    rewrite lay2_cons. apply Forall_app. split; [|apply IH; exact Hok]. rewrite lay2_blk. constructor; [|constructor].
+    unfold hd_pays. cbn [leaf_row app]. constructor.
+    + cbn [f1_ok]. right; left. do 6 eexists. split; reflexivity.
+    + constructor; [|apply Forall_app; split; [apply fx_row_ok|constructor; [|constructor]]].
       * constructor; [|constructor]. cbn [f1_ok]. right; right; right; right; left. eexists. split; reflexivity.
-      * constructor; [|apply IHb; exact Hbody]. cbn [f1_ok]. right; right; right; left. eexists. reflexivity.
-  - apply forallb_item_cons in Hok. destruct Hok as [Hd Hok]. cbn [item_okb] in Hd. apply andb_prop in Hd. destruct Hd as [_ Hbody].
-    rewrite lay2_cons. apply Forall_app. split; [|apply IH; exact Hok]. rewrite lay2_meth. constructor; [|constructor].
-    constructor.
-    + cbn [f1_ok]. right; right; left. do 10 eexists. split; reflexivity.
-    + constructor; [|constructor; [|constructor; [|constructor]]].
-      * constructor; [|constructor]. cbn [f1_ok]. right; right; right; right; left. eexists. split; reflexivity.
-      * constructor; [|constructor]. cbn [f1_ok]. right; right; right; right; right; right. exists (off + 1 + k + 4), (mkDecl 0 OP_BYTE fl). split; [reflexivity|split; reflexivity].
       * constructor; [|apply IHb; exact Hbody]. cbn [f1_ok]. right; right; right; left. eexists. reflexivity.
 Qed.
 
@@ -151,25 +140,25 @@ Proof.
   destruct (Desc_inv _ _ _ _ _ Dy) as (Py & Ky & Dks). assert (a' = a) by congruence. subst a'.
   assert (Hcalls : forall (P : Prop), P -> (negb (y_op a =? aml_pOpIntNamePathOrMethodCall) || negb (y_th a =? 1) = true) -> nonnamed_ok g 1 y a ->
             P /\ nonnamed_ok g 1 y a /\ calls_ok g 1 y a) by (intros P HP Hc Hn; split; [exact HP|split; [exact Hn|split; assumption]]).
-  cbn [f1_ok] in Oy. destruct Oy as [(nm & ->)|[(off & nm & p & po & s & so & l & -> & ->)|[(off & nm & p & po & q & qo & fl & s & so & l & -> & ->)|[(off & ->)|[(off & -> & ->)|[(off & nm & p & po & c & co & d & -> & -> & Hc)|(off & d & -> & Hc & ->)]]]]]].
+  cbn [f1_ok] in Oy. destruct Oy as [(nm & ->)|[(bk & off & nm & p & po & rest & -> & ->)|[(off & w & v & -> & ->)|[(off & ->)|[(off & -> & ->)|[(off & nm & p & po & c & co & d & -> & -> & Hc)|(off & d & -> & Hc & ->)]]]]]].
   - (* default scope *)
     split; [do 3 eexists; split; [reflexivity|right; reflexivity]|]. split; [do 3 eexists; split; reflexivity|].
     apply Hcalls; [|reflexivity|do 3 eexists; split; [reflexivity|left; reflexivity]].
     do 3 eexists. split; [reflexivity|]. right; left. cbn [y_th y_op]. change (0 =? 1) with false. rewrite andb_false_r. reflexivity.
-  - (* Device *)
-    split; [do 3 eexists; split; [reflexivity|right; reflexivity]|]. split; [do 3 eexists; split; reflexivity|].
-    apply Hcalls; [|reflexivity|do 3 eexists; split; [reflexivity|left; reflexivity]].
-    do 3 eexists. split; [reflexivity|]. right; right.
-    pose proof (Forall_inv Dks) as Dp. destruct (Desc_inv _ _ _ _ _ Dp) as (Pp & _ & _).
-    exists p, (pth_pay 1 0 po), 0, (mkSlice (Some po) 4). rewrite Ky. cbn [map ridx hd].
-    split; [reflexivity|]. split; [exact Pp|]. split; [discriminate|]. split; [reflexivity|]. cbn [s_len]. cbv. discriminate.
-  - (* Method *)
-    split; [do 3 eexists; split; [reflexivity|right; reflexivity]|]. split; [do 3 eexists; split; reflexivity|].
-    apply Hcalls; [|reflexivity|do 3 eexists; split; [reflexivity|left; reflexivity]].
-    do 3 eexists. split; [reflexivity|]. right; right.
-    pose proof (Forall_inv Dks) as Dp. destruct (Desc_inv _ _ _ _ _ Dp) as (Pp & _ & _).
-    exists p, (pth_pay 1 0 po), 0, (mkSlice (Some po) 4). rewrite Ky. cbn [map ridx hd].
-    split; [reflexivity|]. split; [exact Pp|]. split; [discriminate|]. split; [reflexivity|]. cbn [s_len]. cbv. discriminate.
+  - (* block-like named object *)
+    destruct bk;
+      (split; [do 3 eexists; split; [reflexivity|right; reflexivity]|]; split; [do 3 eexists; split; reflexivity|];
+       apply Hcalls; [|reflexivity|do 3 eexists; split; [reflexivity|left; reflexivity]];
+       do 3 eexists; split; [reflexivity|]; right; right;
+       pose proof (Forall_inv Dks) as Dp; destruct (Desc_inv _ _ _ _ _ Dp) as (Pp & _ & _);
+       exists p, (pth_pay 1 0 po), 0, (mkSlice (Some po) 4); rewrite Ky; cbn [map ridx hd];
+       split; [reflexivity|]; split; [exact Pp|]; split; [discriminate|]; split; [reflexivity|]; cbn [s_len]; cbv; discriminate).
+  - (* fixed data argument *)
+    unfold num_pay, merge_ok, defer_ok, reloc_ok, nonnamed_ok, calls_ok. cbn [y_info y_op y_th].
+    destruct w;
+      (split; [do 3 eexists; split; [reflexivity|right; reflexivity]|]; split; [do 3 eexists; split; reflexivity|];
+       split; [do 3 eexists; split; [reflexivity|right; left; reflexivity]|];
+       split; [do 3 eexists; split; [reflexivity|right; reflexivity]|]; split; [reflexivity|do 3 eexists; split; [reflexivity|right; reflexivity]]).
   - (* ScopeBlock of a block *)
     split; [do 3 eexists; split; [reflexivity|right; reflexivity]|]. split; [do 3 eexists; split; reflexivity|].
     apply Hcalls; [|reflexivity|do 3 eexists; split; [reflexivity|left; reflexivity]].
@@ -239,12 +228,10 @@ Definition root_tree (its : list item) : rose :=
 
 Lemma lay2_rsizes h tbl : forall l b off, rsizes (lay2 h tbl b off l) = iszs l.
 Proof.
-  induction l as [|d rest IH|k seg body rest IHb IH|k seg fl body rest IHb IH] using items_ind; intros b off; [reflexivity| | |].
+  induction l as [|d rest IH|bk k seg fa body rest IHb IH] using items_ind; intros b off; [reflexivity| |].
   - rewrite lay2_cons, rsizes_app, IH, iszs_cons. reflexivity.
-  - rewrite lay2_cons, rsizes_app, IH, iszs_cons, lay2_dev, isz_dev. cbn [rsizes fold_right]. rewrite !rsize_eq.
-    cbn [rsizes fold_right]. rewrite !rsize_eq. fold (rsizes (lay2 h tbl (b + 3) (off + 2 + k + 4) body)). rewrite IHb. cbn [rsizes fold_right]. lia.
-  - rewrite lay2_cons, rsizes_app, IH, iszs_cons, lay2_meth, isz_meth. cbn [rsizes fold_right]. rewrite !rsize_eq.
-    cbn [rsizes fold_right]. rewrite !rsize_eq. fold (rsizes (lay2 h tbl (b + 4) (off + 1 + k + 5) body)). rewrite IHb. cbn [rsizes fold_right]. lia.
+  - rewrite lay2_cons, rsizes_app, IH, iszs_cons, lay2_blk, isz_blk. cbn [rsizes fold_right]. rewrite !rsize_eq.
+    rewrite rsizes_app, leaf_row_rsizes, len_hd_pays. cbn [rsizes fold_right]. rewrite rsize_eq, IHb. lia.
 Qed.
 
 Lemma root_tree_size its : rsize (root_tree its) = (6 + iszs its)%nat.
